@@ -89,4 +89,11 @@ OInit == txt = <<>> /\ cfg = Init0 /\ i = 0
 ONext == /\ i < Len(Cases) /\ i' = i + 1 /\ UNCHANGED <<txt, cfg>>
          /\ PrintT("RESULT|" \o ToJson([id |-> Cases[i + 1].id, v |-> Predict(Cases[i + 1].kind, Cases[i + 1].s)]))
 OSpec == OInit /\ [][ONext]_mvars
+
+\* D. oracle: classes a meta-model export shows (cases: [id, files])
+S2Q(S) == LET RECURSIVE f(_) f(T) == IF T = {} THEN <<>> ELSE LET x == CHOOSE x \in T : TRUE IN <<x>> \o f(T \ {x}) IN f(S)
+WNext == /\ i < Len(Cases) /\ i' = i + 1 /\ UNCHANGED <<txt, cfg>>
+         /\ PrintT("RESULT|" \o ToJson([id |-> Cases[i + 1].id, drawn |-> S2Q(Drawn(Cases[i + 1].files)),
+                                       crash |-> Crashes(Cases[i + 1].files)]))
+WSpec == OInit /\ [][WNext]_mvars
 =============================================================================
